@@ -153,7 +153,9 @@ def check(run: Run, ctx) -> None:
     run.cov["rule"] = ("correspondence: every string of length ≤3 (quick) / ≤4 (thorough) over the 13-symbol alphabet "
                        "{a,b,A,B,0,1,_,-,space,.,$,é,用} exhaustively, plus seeded longer samples and random Unicode; a case is "
                        "distinct by (function,input) and non-trivial when the derived name differs from the input; "
-                       "suffix loops: random namespaces from colliding pools, non-trivial when at least one suffix was assigned")
+                       "suffix loops: random namespaces from colliding pools, non-trivial when at least one suffix was assigned; "
+                       "e2e: seeded documents with keyword-like tags (import, global, class, async, None) and the tag `config` -> generated package imported, "
+                       "APIClient constructed, every tag attribute a non-keyword identifier yielding its tag client")
     run.assumptions += [
         "CPython's \\w / str.lower / str.upper / str.isdigit for non-ASCII characters are supplied to the model by the harness "
         "(UInfo), U+03A3 (context-dependent lower()) and lone surrogates are excluded from generators",
@@ -191,8 +193,42 @@ def check(run: Run, ctx) -> None:
         oracle_unary(run, known, NS, enum_impl, s)
     cleanop_corr(run, ctx, NS, r)
     loops(run, ctx, r, known)
+    e2e_identifiers(run, ctx, known)
     known.replay_witnesses(lambda fid, w: replay(run, ctx, {"case": w}))
     known.report_unreplayed()
+
+
+def e2e_identifiers(run, ctx, known) -> None:
+    """End to end: the identifiers the generator DERIVES and emits (method names, APIClient tag attributes incl. keyword-like tags and the
+    tag `config`, module/class names) are usable - the package parses, every tag attribute is a non-keyword identifier that yields its tag
+    client on a constructed APIClient."""
+    from .. import e2e as _e2e
+    from ..gen import spec as gs
+    from . import C07
+    cases = []
+    for i in range(ctx.budget(8, 80)):
+        rr = rng(f"C20:e2e:{i}")
+        doc = gs.gen_spec(rr, gs.Opts(mainstream=True, max_ops=5, multi_tags=False, always_opid=(i % 2 == 0), streaming=False))
+        # make sure the keyword-like / self-clashing tags occur
+        ops = [op for it in doc["paths"].values() for m, op in it.items() if m != "parameters" and isinstance(op, dict)]
+        for op, t in zip(ops, rr.sample(["import", "global", "config", "class", "async", "None"], min(len(ops), 2))):
+            op["tags"] = [t]
+        cases.append({"id": f"c20-e2e-{i}", "doc": doc, "strategy": ["operationId", "clean", "path"][i % 3], "fmt": "json", "dup_ids": False, "int_status_keys": False})
+    results = _e2e.run_cases("vf.props.C07:case_fn", cases)
+    for case, res in zip(cases, results):
+        if "infra_error" in res:
+            run.infra_errors.append(res["infra_error"])
+            continue
+        run.count({"e2e": case["doc"]}, nontrivial=True)
+        run.cov["traces_validated_against_impl"] += 1
+        if not res.get("gen_ok"):
+            continue
+        fails = [(c, m) for c, m in C07.judge(case, res) if c in ("apiclient-property-name", "apiclient-unreachable", "method-name")
+                 or (c == "does-not-import" and "SyntaxError" in m)]
+        for cls, msg in fails[:2]:
+            if len(run.violations) < 5:
+                run.violation("input", {"f": "e2e", "doc": case["doc"], "strategy": case["strategy"]}, observed=msg,
+                              expected="every derived identifier is a valid, non-keyword, unique identifier", what=f"e2e {cls}: {msg[:300]}")
 
 
 def oracle_unary(run, known, NS, enum_impl, s: str) -> None:
@@ -314,6 +350,12 @@ def replay(run: Run, ctx, rec) -> bool:
     case = rec.get("case") or {}
     NS = _impl()
     f, s = case.get("f"), case.get("in")
+    if f == "e2e":
+        from .. import e2e as _e2e
+        from . import C07
+        c = {"id": "replay", "doc": case["doc"], "strategy": case.get("strategy", "operationId"), "fmt": "json", "dup_ids": False, "int_status_keys": False}
+        res = _e2e.run_cases("vf.props.C07:case_fn", [c], workers=1)[0]
+        return bool(res.get("gen_ok") and [1 for cl, m in C07.judge(c, res) if cl in ("apiclient-property-name", "apiclient-unreachable", "method-name") or (cl == "does-not-import" and "SyntaxError" in m)])
     if f in ("sanitize_class_name", "sanitize_method_name", "sanitize_module_name"):
         return not valid_ident(getattr(NS, f)(s))
     if f == "enum member name":
